@@ -201,12 +201,17 @@ def collect(prop, pairs, res, crash_kinds=None, any_prop=False):
 
 def write_evidence(spec, tier, seed, res, wall, nviol, extra_cov=None):
     os.makedirs(EVIDENCE_DIR, exist_ok=True)
-    if spec.evaluations:
+    if callable(spec.evaluations):
+        evaluations = spec.evaluations(res.counters)
+    elif spec.evaluations:
         names = spec.evaluations if isinstance(spec.evaluations, (list, tuple)) \
             else [spec.evaluations]
         evaluations = sum(res.counters.get(n, 0) for n in names)
     else:
         evaluations = res.cases
+    # evaluations counts executions judged by this property's oracle; the
+    # distinct non-trivial cases are a subset of the executed cases
+    evaluations = max(int(evaluations), len(res.hashes))
     cov = {
         "evaluations": int(evaluations),
         "distinct_nontrivial": len(res.hashes),
